@@ -188,7 +188,10 @@ def run_wrapper(case):
     for op in case["start"]:
         run_op(op)
     excs = {"ValueError": ValueError, "TypeError": TypeError, "KeyError": KeyError, "IndexError": IndexError,
-            "OtherError": ZeroDivisionError}
+            "OtherError": ZeroDivisionError,
+            # exits that are not subclasses of Exception (Ctrl-C during a slow curve evaluation, sys.exit, a closed
+            # generator): "also when they fail" covers every way the wrapped computation can be left
+            "KeyboardInterrupt": KeyboardInterrupt, "SystemExit": SystemExit, "GeneratorExit": GeneratorExit}
 
     def body(*args):
         if case["inner"] is not None:
@@ -201,7 +204,7 @@ def run_wrapper(case):
     try:
         S.use_mc_sample_size(pv_to_py(case["size"], enums()))(body)()
         e = None
-    except Exception as ex:  # noqa
+    except BaseException as ex:  # noqa
         e = exn_name(ex)
     return before, e, observe()
 
@@ -248,7 +251,7 @@ def coq_op(op):
 
 
 def coq_exn(e):
-    return coq_option(e, lambda x: x)
+    return coq_option(e, lambda x: x if x in EXN else "OtherError")
 
 
 def coq_session(fresh, hist):
@@ -271,7 +274,8 @@ def gen_wrapper_case(rng):
             "size": rng.choice([["int", 10], ["int", 10000], ["int", 1], ["int", 0], ["int", -5], ["str", "10"],
                                 ["float", (2.5).hex()], ["bool", True]]),
             "inner": rng.choice([None, None, ["int", 77], ["int", -1]]),
-            "raises": rng.choice([None, None, "ValueError", "TypeError", "OtherError", "KeyError"])}
+            "raises": rng.choice([None, None, "ValueError", "TypeError", "OtherError", "KeyError",
+                                  "KeyboardInterrupt", "SystemExit", "GeneratorExit"])}
 
 
 def correspondence(ctx):
@@ -439,13 +443,16 @@ def check_plot_wrapper_oracle():
     for size in (123, 10000, 55555):
         q.set_monte_carlo_sample_size(size)
 
-        def bad(x):
-            raise ZeroDivisionError("user function fails")
-        for attr in ("yvalues", "yerr"):
-            f = po.FunctionOnPlot(bad, xrange=(0, 1))
+        for attr, exc in (("yvalues", ZeroDivisionError), ("yerr", ZeroDivisionError),
+                          ("yvalues", KeyboardInterrupt), ("yerr", SystemExit)):
+            def make_bad(exc_class):
+                def bad(x):
+                    raise exc_class("user function fails")
+                return bad
+            f = po.FunctionOnPlot(make_bad(exc), xrange=(0, 1))
             try:
                 getattr(f, attr)
-            except Exception:  # noqa
+            except BaseException:  # noqa
                 pass
             now = q.get_settings().monte_carlo_sample_size
             if now != size:
